@@ -23,6 +23,7 @@ import (
 
 	"github.com/mholt/caddy-l4/layer4"
 	_ "github.com/mholt/caddy-l4/modules/l4proxyprotocol"
+	_ "github.com/mholt/caddy-l4/modules/l4throttle"
 
 	"verif/mc/explore"
 	"verif/mc/hm"
@@ -130,7 +131,13 @@ func execute(x *explore.Exec, sc *Scn) *result {
 		ctx, cancel := caddy.NewContext(caddy.Context{Context: context.Background()})
 		defer cancel()
 		lw := &layer4.ListenerWrapper{MatchingTimeout: caddy.Duration(2 * time.Second)}
-		if err := json.Unmarshal([]byte(routesJSON), &lw.Routes); err != nil {
+		rj := routesJSON
+		if strings.Contains(sc.Conns, "R") {
+			// kind R: TLS termination followed by another non-terminal handler that replaces the
+			// connection's transport (throttle) before the connection falls through
+			rj = strings.Replace(rj, `{"handler":"h_tls"}`, `{"handler":"h_tls"},{"handler":"throttle","read_bytes_per_second":1000000,"read_burst_size":1000000}`, 1)
+		}
+		if err := json.Unmarshal([]byte(rj), &lw.Routes); err != nil {
 			panic(err)
 		}
 		if err := lw.Provision(ctx); err != nil {
@@ -211,7 +218,7 @@ func execute(x *explore.Exec, sc *Scn) *result {
 			res.servers = append(res.servers, sv)
 			s := stream(sc.Conns[i], i, sc.Payload)
 			vsched.Point("inject")
-			if sc.Conns[i] == 'S' {
+			if sc.Conns[i] == 'S' || sc.Conns[i] == 'R' {
 				// an interactive client: handshake, plaintext, close_notify, then read the reply
 				vsched.GoNamed(fmt.Sprintf("tlsclient%d", i), func() {
 					tc := tls.Client(cl, htls.ClientConfig)
@@ -332,8 +339,8 @@ func check(x *explore.Exec, sc *Scn, r *result) {
 			x.Fail("deadline-armed-on-hand-over", "connection %d was handed over with the matching read deadline still armed (%v): a consumer that reads after the matching timeout gets an i/o timeout; %s", i, r.servers[i].ReadDeadline(), desc())
 		}
 		switch kind {
-		case 'F', 'G', 'W', 'S':
-			if kind == 'S' {
+		case 'F', 'G', 'W', 'S', 'R':
+			if kind == 'S' || kind == 'R' {
 				for _, a := range r.accepted {
 					if string(a.data) == want && (!a.tls || a.sni != "verif.test") {
 						x.Fail("tls-state-not-exposed", "connection %d was handed over after TLS termination but does not expose the TLS connection state (handshake complete=%v, server name %q); %s", i, a.tls, a.sni, desc())
@@ -422,7 +429,7 @@ func scenarios(tier string, yield0 func(any) bool) {
 			}
 		}
 	}
-	mixes = append(mixes, "FFF", "FTF", "FFT", "WFW", "WWF", "S", "SF", "FS", "SS", "ST", "SU")
+	mixes = append(mixes, "FFF", "FTF", "FFT", "WFW", "WWF", "S", "SF", "FS", "SS", "ST", "SU", "R", "RF")
 	if os.Getenv("VERIF_C13_SUBSET") == "stream" {
 		// as the listener-wrapper part of C01: what the wrapped listener's consumer reads is the
 		// client's stream from the first unconsumed byte (plain, after a consuming route, after
@@ -466,7 +473,7 @@ func scenarios(tier string, yield0 func(any) bool) {
 					closes = append(closes, k)
 				}
 				for _, cl := range closes {
-					if strings.Contains(m, "S") && (procs == 2 || cl > 1) {
+					if strings.ContainsAny(m, "SR") && (procs == 2 || cl > 1) {
 						continue
 					}
 					for _, pl := range []int{3, 9} {
@@ -500,7 +507,7 @@ func main() {
 	runner.Main(&runner.Harness{
 		ID:    "C13",
 		Level: "model_checking",
-		Rule:  "mixes of 1-2 (3 thorough) connections of kinds {terminal-route match, fall-through, fall-through after a non-terminal route consumed 2 bytes, fall-through of the wrapped connection after the shipped proxy_protocol handler stripped a PROXY header, fall-through after TLS termination by the real l4tls handler with a crypto/tls client (plaintext and exposed TLS state), undecided until the matching timeout, matcher error} x consumer {Accept eagerly, only after all matching ended, never} x hand-off channel capacity {1,2} x listener Close before connection k / at the end x payload {3, 9 bytes}; every interleaving of the real listener loop, handle goroutines, Accept, Close and the consumer within the joint deviation budget (delay bounding; 3 quick / 4 thorough for the mixes around a falling-through connection with channel capacity 1, one less otherwise: preemptions, select alternatives, early timers, pool misses, short reads); the buffer pool is a deterministic LIFO so that reuse of a just-returned buffer is the default",
+		Rule:  "mixes of 1-2 (3 thorough) connections of kinds {terminal-route match, fall-through, fall-through after a non-terminal route consumed 2 bytes, fall-through of the wrapped connection after the shipped proxy_protocol handler stripped a PROXY header, fall-through after TLS termination by the real l4tls handler with a crypto/tls client (plaintext and exposed TLS state), undecided until the matching timeout, matcher error} x consumer {Accept eagerly, only after all matching ended, never} x hand-off channel capacity {1,2} x listener Close before connection k / at the end x payload {3, 9 bytes}; every interleaving of the real listener loop, handle goroutines, Accept, Close and the consumer within the joint deviation budget (delay bounding; 3 quick / 4 thorough for the mixes around a falling-through connection with channel capacity 1, one less otherwise: preemptions, select alternatives, early timers, pool misses, short reads); the buffer pool is a deterministic LIFO so that reuse of a just-returned buffer is the default; kind R: TLS termination followed by a throttle handler (which replaces the transport) before the connection falls through",
 		Assumptions: []string{
 			"the code under test is /repo's working tree mechanically redirected to the scheduler (tools/gomcrw); sync.Pool is replaced by a deterministic LIFO pool",
 			"TLS-terminated fall-through is covered by C01's TLS chains and the tlsConnection wrapper is not exercised here",
@@ -530,7 +537,7 @@ func main() {
 			if sc.Two && len(sc.Conns) > 1 && tier != "thorough" {
 				ex.Total = 2 // two consumers: more threads, same depth as the other mixes
 			}
-			if strings.Contains(sc.Conns, "S") {
+			if strings.ContainsAny(sc.Conns, "SR") {
 				// a TLS handshake is ~100 scheduling points per execution
 				ex.Total = 1
 				if tier == "thorough" {
